@@ -1241,4 +1241,172 @@ theorem fad_keysLoop_ok {root : Val} (call : Str → Val → Out) :
           (fun kc hkc => hc kc (by simp [hkc])) f h
     · exact ih _ ha (fun kc hkc => hc kc (by simp [hkc])) f h
 
+theorem fad_classify_name {tok n : Str} (h : classify tok = .name n) : n = tok := by
+  by_cases h1 : stripWs tok = ['.', '.']
+  · simp only [classify, h1, if_true] at h; cases h
+  · by_cases h2 : startsWith tok ['['] = true
+    · exfalso
+      simp only [classify, h1, if_false, h2, if_true] at h
+      by_cases h3 : endsWith tok [']'] = true
+      · simp only [h3, Bool.not_true, Bool.false_eq_true, if_false] at h
+        by_cases h4 : (tok.any fun c => decide (c.toNat ≥ 128)) = true
+        · simp only [h4, if_true] at h; cases h
+        · simp only [h4] at h
+          by_cases h5 : isNumber (stripWs (List.drop 1 tok).dropLast) = true
+          · simp only [h5, if_true] at h
+            cases hp : pyInt (stripWs (List.drop 1 tok).dropLast) <;> rw [hp] at h <;> cases h
+          · simp only [h5] at h
+            simp only [Bool.false_eq_true, if_false] at h
+            generalize List.filter (fun x => decide (x ≠ ' ')) (lower (stripWs (List.drop 1 tok).dropLast)) = L at h
+            by_cases h6 : L = ['*']
+            · simp only [h6, if_true] at h; cases h
+            · simp only [h6, if_false] at h
+              by_cases h7 : startsWith L sLastFn = true
+              · simp only [h7, if_true] at h
+                cases hp : evalLast (List.drop 6 L) <;> rw [hp] at h <;> cases h
+              · simp only [h7, Bool.false_eq_true, if_false] at h
+                by_cases h8 : startsWith L sTextFn = true
+                · simp only [h8, if_true] at h
+                  split at h
+                  · cases h
+                  · split at h <;> cases h
+                · simp only [h8, Bool.false_eq_true, if_false] at h
+                  cases h
+      · simp only [h3] at h; cases h
+    · simp only [classify, h1, if_false, h2] at h
+      cases h; rfl
+
+theorem fad_noText_cons {tok : Str} {rest : List Str} (h : NoText (tok :: rest)) : NoText rest :=
+  fun t ht => h t (by simp [ht])
+
+theorem fad_step_ok {root : Val} (hroot : ∃ c kvs, root = .dict c kvs) (hko : KeysOkV root)
+    {rec : Val → List Str → FL → PS → Out} (hr : FadRecOk root rec) (hps : PsInv rec) (hdl : FlDL rec)
+    (hfd : ∀ c kvs t f p, (rec (.dict c kvs) t f p).fl = f) (re : Bool) :
+    FadRecOk root (step rec re) := by
+  intro node toks fl ps gs hinv hnt f h
+  have hfl := hinv.fl_eq
+  unfold step at h
+  split at h
+  · simp only [Except.ok.injEq, Option.some.injEq] at h
+    subst h
+    intro kv hkv
+    simp only [List.mem_singleton] at hkv
+    subst hkv
+    exact ⟨gs, hinv.plain, by rw [hfl], hinv.at_⟩
+  · rename_i tok rest
+    have hnt' : NoText rest := fad_noText_cons hnt
+    split at h
+    · -- '..'
+      unfold stepUp at h
+      split at h
+      · cases re <;> simp [raiseOr] at h
+      · rename_i target hl
+        split at hl
+        · cases hl
+        · rename_i hne
+          have hgs : gs ≠ [] := by
+            intro hg
+            subst hg
+            rw [hfl] at hne
+            exact hne rfl
+          exact hr _ _ _ _ _ (hinv.up hgs hl) hnt' f h
+    · cases h
+    · rename_i eq v hcl
+      exact absurd hcl (hnt tok (by simp) eq v)
+    · -- index
+      rename_i i _
+      unfold stepIdx at h
+      split at h
+      · rename_i c xs
+        have hgs := hinv.gs_ne_of_list hroot
+        split at h
+        · cases re <;> simp [raiseOr] at h
+        · rename_i n hn
+          split at h
+          · cases h
+          · rename_i child hx
+            split at h
+            · have he : fl.isEmpty = false := by rw [hfl]; exact fad_flOfG_isEmpty hgs
+              simp only [he, Bool.false_eq_true, if_false] at h
+              have e := fad_setLast_addIdx hgs fl (by rw [hfl]) i
+              rw [← hfl] at e
+              rw [e] at h
+              exact hr _ _ _ _ _ (hinv.idx hroot hn hx) hnt' f h
+            · cases re <;> simp [raiseOr] at h
+      · split at h <;> cases re <;> simp [raiseOr] at h
+      · cases h
+    · -- [*]
+      unfold stepStar at h
+      split at h
+      · rename_i c xs
+        have hgs := hinv.gs_ne_of_list hroot
+        have he : fl.isEmpty = false := by rw [hfl]; exact fad_flOfG_isEmpty hgs
+        simp only [he, Bool.false_eq_true, if_false] at h
+        refine fad_starLoop_ok _ re _ fl.dropLast (fun c cur => hdl _ _ _ _) xs 0 fl [] rfl (FadRes.nil root) ?_ f h
+        intro j x f' hj hres
+        have hjl : j < xs.length := by
+          rcases Nat.lt_or_ge j xs.length with hlt | hge
+          · exact hlt
+          · rw [List.getElem?_eq_none hge] at hj; cases hj
+        have e : fl.dropLast ++ [fl.getLast?.getD [] ++ bracket (natRepr (0 + j))] = flOfG (addIdx gs (j : Int)) := by
+          have := fad_setLast_addIdx hgs fl (by rw [hfl]) (j : Int)
+          rw [← hfl] at this
+          rw [← this, Nat.zero_add]
+          rfl
+        rw [e] at hres
+        exact hr _ _ _ _ _ (hinv.idx hroot (normIdx_nat hjl) hj) hnt' f' hres
+      · cases re <;> simp [raiseOr] at h
+      · cases h
+    · -- name
+      rename_i name hcl
+      have hnm := fad_classify_name hcl
+      subst hnm
+      unfold stepName at h
+      split at h
+      · -- on a list: re-enter with "[*]" prepended
+        refine hr _ _ _ _ _ hinv ?_ f h
+        intro t ht eq v
+        simp only [List.mem_cons] at ht
+        rcases ht with rfl | rfl | ht
+        · have : classify ['[', '*', ']'] = .star := by decide
+          rw [this]; intro hh; cases hh
+        · rw [hcl]; intro hh; cases hh
+        · exact hnt' t ht eq v
+      · rename_i c kvs
+        have hkn : KeysOkK kvs := by
+          have := fad_keysOk_stepsGet _ hko hinv.at_
+          simpa only [KeysOkV] using this
+        split at h
+        · cases re <;> simp [raiseOr] at h
+        · split at h
+          · -- '*'
+            simp only at h
+            split at h
+            · cases h
+            · rename_i f1 hres
+              simp only at h
+              rw [hfd, hps] at h
+              have h1 : FadRes root (upd [] f1) :=
+                (FadRes.nil root).upd (fun f' hf' => hr _ _ _ _ _ hinv hnt' f' (by rw [hres, hf']))
+              refine fad_keysLoop_ok _ kvs _ h1 ?_ f h
+              intro kc hkc f' hf'
+              have hl := fad_keysOk_mem_lookup hkn (show (kc.1, kc.2) ∈ kvs from hkc)
+              exact hr _ _ _ _ _ (hinv.key (fad_keysOk_lookup hkn hl).1 hl) hnt f' hf'
+          · split at h
+            · rename_i x hl
+              exact hr _ _ _ _ _ (hinv.key (fad_keysOk_lookup hkn hl).1 hl) hnt' f h
+            · cases h
+      · cases h
+
+/-- **every key spells its value's position**, for every fuel, path list and stack satisfying the
+invariant, and every expression without `text()` conditions -/
+theorem fad_fa_ok {root : Val} (hroot : ∃ c kvs, root = .dict c kvs) (hko : KeysOkV root) (re : Bool) :
+    ∀ fuel, FadRecOk root (fa re fuel) := by
+  intro fuel
+  induction fuel with
+  | zero => intro node toks fl ps gs _ _ f h; cases h
+  | succ k ih =>
+    exact fad_step_ok hroot hko ih (fun n t f p => fa_ps re k n t f p) (fa_dl re k)
+      (fun c kvs t f p => fad_fa_fl_dict re k c kvs t f p) re
+
 end N0.FindAll
